@@ -52,6 +52,19 @@ func H_C09_actions() {
 			ref[a] = true
 		}
 	}
+	// optionally the module has already handled a transfer with the fee action before the admin messages arrive (enforcement
+	// must follow the CURRENT paused set, not what was true when the executor first saw the action)
+	w.L.Set(escrow, nativeDenom, math.NewInt(50000))
+	if verif.Bool("earlier-transfer-with-the-fee-action") {
+		f0, err := fwdtypes.NewInternalForwarding(user2.String())
+		must(err)
+		pl0, err := core.NewPayload(f0, feeAction(100))
+		must(err)
+		ack0 := w.Recv(orbiterData(math.NewInt(2000), pl0))
+		verif.Assert(ack0.Success() == !ref[core.ACTION_FEE], "earlier-transfer-follows-the-paused-set")
+		w.Int.reqs = nil
+	}
+	fee0 := w.L.Bal(feeR1, nativeDenom)
 	for s := 0; s < verif.Bound("steps"); s++ {
 		nameK := verif.Choose("msg-action", len(actionNames))
 		a := actionOfName(nameK)
@@ -141,7 +154,6 @@ func H_C09_actions() {
 	pl, err := core.NewPayload(f, acts...)
 	must(err)
 	A := math.NewInt(1000)
-	w.L.Set(escrow, nativeDenom, math.NewInt(5000))
 	ack := w.Recv(orbiterData(A, pl))
 	blocked := (withFee && ref[core.ACTION_FEE]) || (withSwap && ref[core.ACTION_SWAP])
 	if blocked {
@@ -149,7 +161,7 @@ func H_C09_actions() {
 		verif.Assert(!ack.Success(), "payload-with-paused-action-gets-error-ack")
 		verif.Assert(len(w.Int.reqs) == 0, "payload-with-paused-action-is-not-forwarded")
 		if withFee && ref[core.ACTION_FEE] {
-			verif.Assert(w.L.Bal(feeR1, nativeDenom).IsZero(), "no-fee-is-paid-when-the-fee-action-is-paused")
+			verif.Assert(w.L.Bal(feeR1, nativeDenom).Equal(fee0), "no-fee-is-paid-when-the-fee-action-is-paused")
 		}
 		if withSwap && ref[core.ACTION_SWAP] {
 			verif.Assert(w.swap.ran == 0, "paused-action-never-runs")
@@ -161,7 +173,7 @@ func H_C09_actions() {
 		if withFee {
 			fee = math.NewInt(10)
 		}
-		verif.Assert(w.L.Bal(feeR1, nativeDenom).Equal(fee), "fee-as-without-any-pause")
+		verif.Assert(w.L.Bal(feeR1, nativeDenom).Sub(fee0).Equal(fee), "fee-as-without-any-pause")
 		verif.Assert(w.L.Bal(user1, nativeDenom).Equal(A.Sub(fee)), "delivery-as-without-any-pause")
 		if withSwap {
 			verif.Assert(w.swap.ran == 1, "unpaused-action-runs-once")
